@@ -11,6 +11,7 @@ import (
 	"os"
 	"path/filepath"
 	"sort"
+	"strings"
 	"sync"
 	"time"
 
@@ -393,23 +394,20 @@ func runWatch(in input) (common.Case, error) {
 		}
 		time.Sleep(tick / 4)
 	}
-	// ... then let the loop settle: until no endpoint call happened during three watch intervals
-	deadline := time.Now().Add(5 * time.Second)
-	lastCalls, _ := fr.snapshot()
-	quietSince := time.Now()
-	for time.Now().Before(deadline) {
-		time.Sleep(tick / 2)
-		calls, _ := fr.snapshot()
-		if calls != lastCalls {
-			lastCalls, quietSince = calls, time.Now()
-		} else if time.Since(quietSince) > 3*tick {
+	// ... then look for silence: a window of six watch intervals without any endpoint call
+	// (retried for up to 15 s, the machine may be loaded); extraCalls = calls in the last window tried
+	_, oksSettled := fr.snapshot()
+	extraCalls := 0
+	for dl := time.Now().Add(15 * time.Second); ; {
+		before, _ := fr.snapshot()
+		time.Sleep(6 * tick)
+		after, oks := fr.snapshot()
+		oksSettled = oks
+		extraCalls = after - before
+		if extraCalls == 0 || time.Now().After(dl) {
 			break
 		}
 	}
-	_, oksSettled := fr.snapshot()
-	callsBefore, _ := fr.snapshot()
-	time.Sleep(4 * tick)
-	callsAfter, _ := fr.snapshot()
 	var oc *string
 	if b, err := os.ReadFile(cfgOut); err == nil {
 		s := string(b)
@@ -418,9 +416,12 @@ func runWatch(in input) (common.Case, error) {
 	od := map[string]string{}
 	ents, _ := os.ReadDir(outDir)
 	for _, e := range ents {
+		if strings.HasSuffix(e.Name(), ".tmp") {
+			continue // the loop re-writes every output through <name>.tmp + rename on every interval: a pass is in progress
+		}
 		b, err := os.ReadFile(filepath.Join(outDir, e.Name()))
 		if err != nil {
-			continue // a temporary file of a pass in progress
+			continue
 		}
 		od[e.Name()] = string(b)
 	}
@@ -441,12 +442,12 @@ func runWatch(in input) (common.Case, error) {
 	}
 	reloaded := oksSettled > oksAtLastEdit || (oksSettled > 0 && len(in.Steps) == 0)
 	c.Coq = common.App("CWatch", common.Bool(in.HasCfg), common.Bool(in.Tolerate), common.List(env), optBytes(cfgSnap), coqFiles(cur),
-		optBytes(oc), coqFiles(od), common.Bool(reloaded), common.Nat(callsAfter-callsBefore), common.Bool(returned))
-	c.Obs = map[string]any{"out_cfg": oc, "out_dir": od, "reloads_ok": oksSettled, "reloaded_after_last_edit": reloaded, "extra_calls": callsAfter - callsBefore, "returned": returned}
+		optBytes(oc), coqFiles(od), common.Bool(reloaded), common.Nat(extraCalls), common.Bool(returned))
+	c.Obs = map[string]any{"out_cfg": oc, "out_dir": od, "reloads_ok": oksSettled, "reloaded_after_last_edit": reloaded, "extra_calls": extraCalls, "returned": returned}
 	c.Nontrivial = len(in.Steps) >= 2
 	if !reloaded {
 		c.GoPred, c.Sig = "no successful reload after the last edit", "watch-no-reload"
-	} else if callsAfter != callsBefore {
+	} else if extraCalls != 0 {
 		c.GoPred, c.Sig = "the endpoint is still being called although nothing changes", "watch-not-quiet"
 	} else if !returned {
 		c.GoPred, c.Sig = "Watch did not return after its context was cancelled", "watch-no-return"
